@@ -39,8 +39,9 @@ impl Accumulator {
 
     /// Accumulate a new value into the aggregate state.
     fn accumulate(&mut self, value: &DataType) -> RuntimeResult<()> {
-        // Skip NULL values for most aggregates except COUNT
-        if matches!(value, DataType::Null) && !matches!(self, Accumulator::Count { .. }) {
+        // NULL values are skipped by every aggregate: COUNT(expr) counts the non-NULL values only
+        // (COUNT(*) is fed a non-NULL marker per row by the caller)
+        if matches!(value, DataType::Null) {
             return Ok(());
         }
 
@@ -207,15 +208,16 @@ impl<Child: Executor> HashAggregate<Child> {
         // Accumulate the row
         let evaluator = ExpressionEvaluator::new(&row, &self.input_schema);
         for (i, agg_expr) in self.aggregates.iter().enumerate() {
+            // No argument / `*`: every row counts, so feed a non-NULL marker
             let value = if agg_expr.arg.is_none() {
-                DataType::Null
+                DataType::BigInt(1.into())
             } else if let Some(ref arg) = agg_expr.arg {
                 match arg {
-                    BoundExpression::Star => DataType::Null,
+                    BoundExpression::Star => DataType::BigInt(1.into()),
                     other => evaluator.evaluate_as_single_value(other)?,
                 }
             } else {
-                DataType::Null
+                DataType::BigInt(1.into())
             };
             bucket.accumulators[i].accumulate(&value)?;
         }
